@@ -134,6 +134,20 @@ func cmdCheck(args []string) int {
 			}
 		}
 	}
+	if os.Getenv("GOVC_UNCONTRACTED") != "" {
+		// development: functions of the verified packages that carry no contract (and are not test/fake code)
+		for _, k := range p.sortedFuncKeys() {
+			fn := p.Funcs[k]
+			if fn == nil || fn.Blocks == nil || fn.Synthetic != "" || p.Contracts[k] != nil {
+				continue
+			}
+			file := p.SSA.Fset.Position(fn.Pos()).Filename
+			if strings.HasSuffix(file, "_test.go") || strings.Contains(file, "fakes") || !strings.HasPrefix(file, p.Repo) {
+				continue
+			}
+			fmt.Printf("UNCONTRACTED %s (%s)\n", k, strings.TrimPrefix(file, p.Repo+"/"))
+		}
+	}
 	var pats []string
 	if *funcs != "" {
 		pats = strings.Split(*funcs, ",")
